@@ -469,6 +469,12 @@ class _Walker:
             t = st.target
             if isinstance(t, ast.Name):
                 roots = flat(env.get(t.id, EMPTY))
+                if roots and self._scalar_counter(t.id):
+                    # `n //= 2` on a name that the function uses as an integer counter (`while n:`, `n % 2`, `range(n)`): integers are
+                    # immutable, the update re-binds the local name and leaves the caller's object alone
+                    env = dict(env)
+                    env[t.id] = EMPTY
+                    roots = EMPTY
             else:
                 roots = flat(self.ev_target_base(t, env))
             if roots:
@@ -612,6 +618,20 @@ class _Walker:
                         self.s.field_writes.setdefault(r[1], set()).add(t.attr)
         elif isinstance(t, ast.Starred):
             self.bind(t.value, av, env, st, None)
+
+    def _scalar_counter(self, name):
+        """the function uses `name` the way only a Python / NumPy scalar can be used: as the test of a while loop, as an operand of % or of a
+        comparison with an integer literal inside a test, as an argument of range()"""
+        for n in ast.walk(self.f.node):
+            if isinstance(n, ast.While) and any(isinstance(x, ast.Name) and x.id == name for x in ast.walk(n.test)):
+                return True
+            if isinstance(n, ast.Call) and isinstance(n.func, ast.Name) and n.func.id == 'range' and any(isinstance(a, ast.Name) and a.id == name for a in n.args):
+                return True
+            if isinstance(n, (ast.If, ast.IfExp)):
+                for x in ast.walk(n.test):
+                    if isinstance(x, ast.BinOp) and isinstance(x.op, ast.Mod) and isinstance(x.left, ast.Name) and x.left.id == name:
+                        return True
+        return False
 
     def _reads_same(self, target, value):
         tt = norm(target)
